@@ -297,7 +297,7 @@ def bad_flags(cfg, flags):
     if mgr == 1:
         return flags & 3 != 0
     if mgr == 2:
-        return (flags & 1 != 0) or (flags & 2 != 0 and method in (2, 3))
+        return (flags & 5 != 0) or (flags & 2 != 0 and method in (2, 3))   # 4: transaction manager in its error state
     return False
 
 
